@@ -1,12 +1,17 @@
 """C08 — distance functions return the true minimum distance across all variants.
 
 proof:   coq/theories/C08/*.v, Properties_C08.v  (point/segment distance is the minimum over the segment and attained; segment/
-         segment distance attained and a lower bound; symmetry; zero iff the segments meet; the Frechet dynamic programme equals
-         the minimum over monotone couplings; Hausdorff = max-min; branch and bound admissibility cited from C15)
+         segment distance attained and a lower bound for every pair of points; symmetry; zero iff the segments meet; facet distance
+         = minimum over the facets; point-set distance attained / symmetric / zero characterised; Hausdorff = max-min; the Frechet
+         dynamic programme equals the minimum over monotone couplings; facet sequences cover every segment; branch and bound
+         admissibility cited from C15)
 tie:     S  the exact oracle (DistDefs.v: dist2 / facet_dist2 / hausdorff2 / frechet2 / minclear2 over integer-scaled dyadic
          coordinates, extracted to OCaml) is run beside every distance entry point of the C API on generated pairs; the returned
          doubles are compared EXACTLY over rationals (no sqrt trusted):  |v^2 - dist2| <= 2e-12 dist2,  v = 0 <=> dist2 = 0,
-         symmetry, nearest points on their geometries and realising v, within-distance at v, prev(v), next(v).
+         symmetry, nearest points on their geometries and realising v, within-distance at v, prev(v), next(v), 0, 2v, inf.
+         M  the facet sequence ranges of the model against those FacetSequenceTreeBuilder builds.
+known:   C08-K1 (binary64 rounding beyond 1e-12 relative, accepted only inside an absolute envelope of 16 x 2^-52 x max|ordinate|).
+         C08-K2..K7 are fixed in /repo: the labels survive in evaluate() only to name a regression; they excuse nothing.
 """
 import math, os, struct, random
 from fractions import Fraction
